@@ -101,6 +101,24 @@ def ref2m(fn, tn, tk, a, b):
     r = q * b
     return r if fits_ws(common_type(tn, tk), r) else None
 
+PB_PAGE, PB_CHUNK = 4096, 2 << 20
+PB_HEAD = [((i * 37 + 11) & 0xFF) if i % 3 == 0 else 0 for i in range(PB_PAGE)]
+PB_TAIL = [((i * 101 + 7) & 0xFF) if i % 5 == 0 else 0 for i in range(PB_PAGE)]
+PB_HEAD_BITS = [0]; PB_TAIL_BITS = [0]
+for _b in PB_HEAD: PB_HEAD_BITS.append(PB_HEAD_BITS[-1] + bin(_b).count("1"))
+for _b in PB_TAIL: PB_TAIL_BITS.append(PB_TAIL_BITS[-1] + bin(_b).count("1"))
+
+def pbig_expected(nchunks, skip, cut):
+    """one bits of [skip, total - cut) of: sparse head page, nchunks x 2 MiB of 0xFF, sparse tail page (pure arithmetic)"""
+    ff0 = PB_PAGE; ff1 = PB_PAGE + nchunks * PB_CHUNK; total = ff1 + PB_PAGE
+    lo, hi = skip, total - cut
+    if lo > hi: return None
+    def clip(a, b): return (max(lo, a), min(hi, b))
+    a, b = clip(0, ff0); head = PB_HEAD_BITS[b] - PB_HEAD_BITS[a] if b > a else 0
+    a, b = clip(ff0, ff1); ff = 8 * (b - a) if b > a else 0
+    a, b = clip(ff1, total); tail = PB_TAIL_BITS[b - ff1] - PB_TAIL_BITS[a - ff1] if b > a else 0
+    return head + ff + tail
+
 def nontrivial1(x):
     return x != 0 and (x & (x - 1)) != 0 and x != -1
 
@@ -244,6 +262,15 @@ def gen_integer_cases(scale):
             mode = rng.below(4)
             bs = [0xFF if mode == 0 else (0 if mode == 1 else (rng.next() & 0xFF)) for _ in range(ln)]
             cases.append("prange %d %s" % (start, " ".join(map(str, bs))))
+    # byte ranges with about 2^32 one bits (2 MiB of real memory mapped back to back): the bit count does not fit 32 bits
+    big = [(256, 4096, 4096), (256, 4097, 4096), (256, 4096, 4097), (255, rng.below(4096), rng.below(4096)),
+           (260, rng.below(4096), rng.below(4096)), (256, rng.below(9), rng.below(9)), (257, 4096 + rng.range(1, 3 << 20), rng.below(64))]
+    if scale > 1:
+        big += [(2050, rng.below(4096), rng.below(4096)),          # 4.1 GiB: the byte length does not fit 32 bits either
+                (512, rng.below(4096), rng.below(4096)), (513, 4096 + rng.below(1 << 22), 4096 + rng.below(1 << 22))] + \
+               [(rng.range(250, 270), rng.below(8192), rng.below(8192)) for _ in range(12)]
+    for nch, sk, ct in big:
+        cases.append("pbig %d %d %d" % (nch, sk, ct))
     if scale > 1:
         for _ in range(3000):
             ln = rng.range(0, 200)
@@ -527,7 +554,7 @@ API_SURFACE = [
     {"function": "ffs", "overloads": INT6, "called": True},
     {"function": "popcount", "overloads": INT6, "called": True},
     {"function": "popcount_generic8/16/32/64", "overloads": "uint8_t/uint16_t/uint32_t/uint64_t", "called": True},
-    {"function": "popcount(const void* data, size_t size)", "overloads": "byte range", "called": True, "note": "added in the overload audit: start offsets 0..9 behind an 8-byte aligned address x lengths 0..40 (thorough: random lengths up to 200)"},
+    {"function": "popcount(const void* data, size_t size)", "overloads": "byte range", "called": True, "note": "added in the overload audit: start offsets 0..9 behind an 8-byte aligned address x lengths 0..40 (thorough: random lengths up to 200); ranges of 510..1026 MiB with 2^32 - 8, 2^32, 2^32 + 2^26 (thorough: 2^33) one bits at unaligned starts/ends (return value does not fit 32 bits)"},
     {"function": "integer_log2_floor, integer_log2_ceil", "overloads": INT6, "called": True},
     {"function": "is_power_of_two, round_up_to_power_of_two, round_down_to_power_of_two", "overloads": INT6, "called": True},
     {"function": "uint8_t / uint16_t arguments to the overloaded functions", "overloads": "promote to the int overload (no separate code)", "called": False, "note": "covered by the int overloads; the 8/16-bit template instantiations are called directly"},
@@ -677,6 +704,19 @@ else:
                     found = True
                     ck.violation("sgn<double/float/long double>(%s) = %s, expected %d" % (v, got[3 * k_: 3 * k_ + 3], want), {"case": "sgnf " + v, "impl": a})
                     break
+            continue
+        if kind == "pbig":
+            evaluations += 1; stats["byte_ranges_huge"] = stats.get("byte_ranges_huge", 0) + 1
+            want = pbig_expected(int(tok[1]), int(tok[2]), int(tok[3]))
+            if want is not None and want >= 2 ** 32: nontriv += 1
+            if a.strip().startswith("SETUP-FAILED"):
+                ck.violation("harness could not build the huge virtual range: " + a.strip(), {"correspondence": "harness/C20/math_harness.cpp run_pbig", "case": c}, no_input=True)
+            elif want is not None and a.strip() != str(want):
+                found = True
+                ck.violation("popcount(const void*, size_t) on a range of %d bytes with %d one bits returned %s" % (2 * PB_PAGE + int(tok[1]) * PB_CHUNK - int(tok[2]) - int(tok[3]), want, a.strip()),
+                             {"case": c, "impl": a, "reference": str(want), "layout": "4096-byte sparse page, nchunks x 2 MiB of 0xFF (one memfd mapped back to back), 4096-byte sparse page; range = [skip, total - cut)",
+                              "replay_cmd": "bin/check C20 --replay <this file>"})
+            if kind not in seen_kinds: seen_kinds.add(kind); samples.append({"case": c, "impl": a, "expected": str(want)})
             continue
         if kind == "prange":
             evaluations += 1; stats["byte_ranges"] += 1
